@@ -37,6 +37,33 @@ func bigString(r *core.Rand, n int) string {
 	return sb.String()
 }
 
+// lateEscapes is a value whose first `clean` bytes are plain printable ASCII without any
+// backslash and which only then starts to hold escapes and non-ASCII characters: hints computed
+// on the first buffer-full must not be applied to what is read later.
+func lateEscapes(r *core.Rand, clean, total int, array bool) string {
+	var sb strings.Builder
+	if array {
+		sb.WriteString("[\"k\",")
+	}
+	sb.WriteByte('"')
+	for sb.Len() < clean {
+		sb.WriteByte(byte('a' + r.Intn(26)))
+	}
+	esc := []string{"\\n", "\\\"", "\\\\", "é", "\\u00e9", "\\\"x\\\""}
+	for sb.Len() < total {
+		if r.Chance(1, 6) {
+			sb.WriteString(esc[r.Intn(len(esc))])
+		} else {
+			sb.WriteByte(byte('a' + r.Intn(26)))
+		}
+	}
+	sb.WriteByte('"')
+	if array {
+		sb.WriteString(",{\"a\\\"b\":1}]")
+	}
+	return sb.String()
+}
+
 func bigNumber(r *core.Rand, n int) string {
 	var sb strings.Builder
 	sb.WriteByte(byte('1' + r.Intn(9)))
@@ -120,13 +147,17 @@ func genStream(r *core.Rand, profile int) *stream {
 		for i := r.Intn(3); i > 0; i-- {
 			add(genValue(r, r.Intn(5)))
 		}
-		switch r.Intn(3) {
+		switch r.Intn(4) {
 		case 0:
 			add(bigString(r, p))
 		case 1:
 			add(bigNumber(r, p))
-		default:
+		case 2:
 			add(bigArray(r, p))
+		default:
+			clean := core.Pick(r, []int{4096, 32768, 65536}) + r.Range(-2, 300)
+			add(lateEscapes(r, clean, clean+r.Range(10, 3000), r.Bool()))
+			p = clean
 		}
 		for i := r.Intn(4); i > 0; i-- {
 			add(genValue(r, r.Intn(5)))
